@@ -3,6 +3,7 @@
 Oracle: integer / Fraction definitions evaluated on the raw allele calls in Python; boundary clauses exact.
 """
 import math
+import os
 from fractions import Fraction
 
 import numpy
@@ -34,7 +35,7 @@ def case_strategy(draw):
     ploidy = draw(st.sampled_from([2, 2, 2, 1, 4]))
     rset = rounding_n(ploidy)
     n = draw(st.one_of(st.integers(1, 40), st.sampled_from(rset), st.integers(41, 130)))
-    p = draw(st.integers(1, 8))
+    p = draw(st.integers(1, 30 if os.environ.get("PBT_TIER") == "thorough" else 8))
     cols = []
     for _ in range(p):
         kind = draw(st.sampled_from(["all0", "all1", "allmax", "random", "random", "half"]))
